@@ -106,7 +106,7 @@ func newKFake(fail map[int]bool, events *[]kEvent, strict bool) *kFake {
 					m := f.ptrs[k-1]
 					f.mu.Unlock()
 					select { // nothing else happens in the library until the application has taken the error (or closes)
-					case f.errs <- &sarama.ProducerError{Msg: m, Err: errors.New("kafka: broker not available (scripted)")}:
+					case f.errs <- &sarama.ProducerError{Msg: m, Err: kErr(k)}:
 					case <-f.closing:
 					}
 				}
@@ -127,12 +127,23 @@ func newKFake(fail map[int]bool, events *[]kEvent, strict bool) *kFake {
 			k := len(f.got)
 			if f.fail[k] {
 				*f.events = append(*f.events, kEvent{Ev: "fail", M: k})
-				f.errs <- &sarama.ProducerError{Msg: m, Err: errors.New("kafka: broker not available (scripted)")}
+				f.errs <- &sarama.ProducerError{Msg: m, Err: kErr(k)}
 			}
 			f.mu.Unlock()
 		}
 	}()
 	return f
+}
+
+// kErr: the library reports different errors - its own (broker side: request timed out, not enough replicas) and plain ones
+func kErr(k int) error {
+	switch k % 3 {
+	case 0:
+		return sarama.ErrRequestTimedOut
+	case 1:
+		return errors.New("kafka: broker not available (scripted)")
+	}
+	return sarama.ErrNotEnoughReplicas
 }
 
 func (f *kFake) AsyncClose()                               { close(f.in) }
